@@ -1,7 +1,827 @@
-//! C45 — not built yet.
-use lv_common::Ctx;
+//! C45 — Verified balances are backed by a proof to the header's app hash.
+//!
+//! A random bank store (IAVL-shaped tree) and multistore (simple merkle tree) are built by the harness prover; the
+//! header carries the multistore root as app hash. The real `GrpcClient::get_verified_balance` runs against a fake
+//! node answering `ABCIQuery` with value + ProofOps, first honestly and then under a list of tamperings.
+use std::sync::{Arc, Mutex};
 
-pub fn run(_ctx: &mut Ctx) {
-    eprintln!("C45: check not built yet");
-    std::process::exit(2);
+use celestia_grpc::GrpcClient;
+use celestia_proto::cosmos::base::tendermint::v1beta1::{AbciQueryRequest, AbciQueryResponse, ProofOp, ProofOps};
+use celestia_types::ExtendedHeader;
+use celestia_types::state::{AccAddress, Address};
+use ics23::commitment_proof::Proof;
+use ics23::{BatchEntry, BatchProof, CommitmentProof, ExistenceProof, HashOp, LengthOp, NonExistenceProof};
+use lv_common::Prng;
+use lv_common::prelude::*;
+use lv_gen::chain::{TimeBase, build_chain, seal, simple_chain_spec};
+use prost::Message;
+use tendermint::hash::AppHash;
+
+use crate::fake::{FakeEndpoint, Handler, Incoming, Reply};
+use crate::prover::{IavlStore, KV, MultiStore, recompute};
+
+const ABCI_PATH: &str = "/cosmos.base.tendermint.v1beta1.Service/ABCIQuery";
+const STORE_NAMES: [&str; 18] = [
+    "acc", "authz", "blob", "capability", "distribution", "evidence", "feegrant", "gov", "ibc", "icahost", "minfee", "mint", "params", "signal", "slashing",
+    "staking", "transfer", "upgrade",
+];
+const TWIN_STORE: &str = "wasm";
+
+#[derive(Clone, Debug, Serialize, Deserialize)]
+pub enum Amount {
+    Zero,
+    Small(u16),
+    Big(u64),
+    Max,
+    /// decimal above u64::MAX (cosmos amounts are big integers)
+    Overflow(u8),
+}
+
+impl Amount {
+    fn text(&self) -> String {
+        match self {
+            Amount::Zero => "0".into(),
+            Amount::Small(v) => v.to_string(),
+            Amount::Big(v) => v.to_string(),
+            Amount::Max => u64::MAX.to_string(),
+            Amount::Overflow(d) => format!("1844674407370955161{}", 6 + (*d % 4)),
+        }
+    }
+}
+
+#[derive(Clone, Debug, Serialize, Deserialize)]
+pub struct AccountSpec {
+    pub addr: u64,
+    pub amount: Amount,
+    /// bit0: also holds "uatom", bit1: "utia2" (key extends the utia key), bit2: "utib"
+    pub denoms: u8,
+}
+
+#[derive(Clone, Debug, Serialize, Deserialize)]
+pub enum Tamper {
+    /// one digit of the returned value replaced; `in_proof` edits the ExistenceProof value as well
+    ValueDigit { pos: u16, delta: u8, in_proof: bool },
+    ValueAppend { digit: u8, in_proof: bool },
+    /// returned value := value of another account (proof untouched)
+    ValueOfOther,
+    OpKey { which: bool, pos: u16, bit: u8 },
+    ExistKey { which: bool, pos: u16, bit: u8 },
+    /// 0: version+1, 1: extra byte, 2: hash op, 3: length op, 4: prehash_value, 5: prehash_key, 6: prefix emptied
+    Leaf { which: bool, kind: u8 },
+    /// 0: flip prefix byte, 1: flip suffix byte, 2: drop, 3: duplicate, 4: swap with next, 5: hash op, 6: move sibling hash to the other side
+    Inner { which: bool, idx: u16, pos: u16, kind: u8 },
+    OpsSwap,
+    OpsDrop { which: bool },
+    OpsDup { which: bool },
+    /// proof of another account answered to this query; with_value also returns that account's value
+    OtherAccount { with_value: bool },
+    /// proof of the same address under the denom "utia2"
+    OtherDenom,
+    /// 0: 2nd op proves another store (its own key), 1: same but op key rewritten to "bank",
+    /// 2: forged balance proven inside the twin store, ops keyed (key, "wasm"), 3: same with op key "bank", 4: same with op+exist key "bank"
+    WrongStore { kind: u8 },
+    /// 0: random app hash, 1: bit flip, 2: answer honest for a state where the balance differs (header = real state), 3: header from that other state, answer from the real one
+    WrongRoot { kind: u8, seed: u64 },
+    /// 0..: unsupported strings; 100: swap the two supported strings
+    SpecType { which: bool, kind: u8 },
+    EmptyOps { none: bool },
+    EmptyValue { keep_proof: bool },
+    /// 0: CommitmentProof without proof, 1: non-existence proof wrapping the honest proof as neighbour
+    NotExistence { which: bool, kind: u8 },
+    /// honest proof wrapped in a batch next to another account's proof
+    Batch { which: bool, honest_first: bool },
+}
+
+#[derive(Clone, Debug, Serialize, Deserialize)]
+pub struct Case {
+    pub accounts: Vec<AccountSpec>,
+    pub extras: u8,
+    pub shape_seed: u64,
+    pub balanced: bool,
+    pub version_bits: u8,
+    pub store_mask: u32,
+    pub height: u64,
+    pub target: u16,
+    pub other: u16,
+    pub tampers: Vec<Tamper>,
+}
+
+fn amount_strategy() -> impl Strategy<Value = Amount> {
+    prop_oneof![
+        2 => Just(Amount::Zero),
+        4 => any::<u16>().prop_map(Amount::Small),
+        4 => any::<u64>().prop_map(Amount::Big),
+        1 => Just(Amount::Max),
+        1 => any::<u8>().prop_map(Amount::Overflow),
+    ]
+}
+
+fn tamper_strategy() -> impl Strategy<Value = Tamper> {
+    prop_oneof![
+        3 => (any::<u16>(), 1u8..10, any::<bool>()).prop_map(|(pos, delta, in_proof)| Tamper::ValueDigit { pos, delta, in_proof }),
+        1 => (0u8..10, any::<bool>()).prop_map(|(digit, in_proof)| Tamper::ValueAppend { digit, in_proof }),
+        1 => Just(Tamper::ValueOfOther),
+        2 => (any::<bool>(), any::<u16>(), 0u8..8).prop_map(|(which, pos, bit)| Tamper::OpKey { which, pos, bit }),
+        2 => (any::<bool>(), any::<u16>(), 0u8..8).prop_map(|(which, pos, bit)| Tamper::ExistKey { which, pos, bit }),
+        3 => (any::<bool>(), 0u8..7).prop_map(|(which, kind)| Tamper::Leaf { which, kind }),
+        4 => (any::<bool>(), any::<u16>(), any::<u16>(), 0u8..7).prop_map(|(which, idx, pos, kind)| Tamper::Inner { which, idx, pos, kind }),
+        1 => Just(Tamper::OpsSwap),
+        1 => any::<bool>().prop_map(|which| Tamper::OpsDrop { which }),
+        1 => any::<bool>().prop_map(|which| Tamper::OpsDup { which }),
+        2 => any::<bool>().prop_map(|with_value| Tamper::OtherAccount { with_value }),
+        1 => Just(Tamper::OtherDenom),
+        3 => (0u8..5).prop_map(|kind| Tamper::WrongStore { kind }),
+        3 => (0u8..4, any::<u64>()).prop_map(|(kind, seed)| Tamper::WrongRoot { kind, seed }),
+        2 => (any::<bool>(), prop_oneof![0u8..6, Just(100u8)]).prop_map(|(which, kind)| Tamper::SpecType { which, kind }),
+        1 => any::<bool>().prop_map(|none| Tamper::EmptyOps { none }),
+        2 => any::<bool>().prop_map(|keep_proof| Tamper::EmptyValue { keep_proof }),
+        1 => (any::<bool>(), 0u8..2).prop_map(|(which, kind)| Tamper::NotExistence { which, kind }),
+        1 => (any::<bool>(), any::<bool>()).prop_map(|(which, honest_first)| Tamper::Batch { which, honest_first }),
+    ]
+}
+
+fn case_strategy(max_accounts: usize, tampers: usize) -> impl Strategy<Value = Case> {
+    (
+        prop_oneof![1 => Just(1usize), 1 => 2usize..=3, 6 => 1usize..=max_accounts].prop_flat_map(|n| {
+            prop::collection::vec(
+                (0u64..200, amount_strategy(), prop_oneof![1 => Just(0u8), 2 => 0u8..8]).prop_map(|(addr, amount, denoms)| AccountSpec { addr, amount, denoms }),
+                n..=n,
+            )
+        }),
+        prop_oneof![2 => Just(0u8), 3 => 0u8..6],
+        any::<u64>(),
+        any::<bool>(),
+        0u8..40,
+        prop_oneof![1 => Just(0u32), 1 => (0u32..21).prop_map(|b| 1 << b), 6 => any::<u32>()],
+        prop_oneof![Just(1u64), Just(2u64), Just(3u64), 4u64..1_000_000],
+        any::<u16>(),
+        any::<u16>(),
+        prop::collection::vec(tamper_strategy(), tampers),
+    )
+        .prop_map(|(accounts, extras, shape_seed, balanced, version_bits, store_mask, height, target, other, tampers)| Case {
+            accounts,
+            extras,
+            shape_seed,
+            balanced,
+            version_bits,
+            store_mask,
+            height,
+            target,
+            other,
+            tampers,
+        })
+}
+
+fn addr_bytes(seed: u64) -> [u8; 20] {
+    // small seed space on purpose: neighbouring keys share long prefixes
+    let mut p = Prng::new(seed.wrapping_mul(0x9E37_79B9_7F4A_7C15) ^ 0xC45);
+    let mut a: [u8; 20] = p.array();
+    if seed % 4 == 0 {
+        a[..16].copy_from_slice(&[0xAA; 16]);
+    }
+    a
+}
+
+fn balance_key(addr: &[u8; 20], denom: &str) -> Vec<u8> {
+    let mut k = vec![0x02, 20];
+    k.extend_from_slice(addr);
+    k.extend_from_slice(denom.as_bytes());
+    k
+}
+
+#[derive(Clone, Debug)]
+struct Op {
+    ty: String,
+    key: Vec<u8>,
+    proof: CommitmentProof,
+}
+
+#[derive(Clone, Debug)]
+struct Answer {
+    value: Vec<u8>,
+    ops: Option<Vec<Op>>,
+    app_hash: Vec<u8>,
+}
+
+impl Answer {
+    fn fingerprint(&self) -> Vec<u8> {
+        let mut v = self.value.clone();
+        v.push(0xff);
+        v.extend_from_slice(&self.app_hash);
+        match &self.ops {
+            None => v.push(0),
+            Some(ops) => {
+                v.push(1);
+                for o in ops {
+                    v.extend_from_slice(o.ty.as_bytes());
+                    v.push(0xfe);
+                    v.extend_from_slice(&o.key);
+                    v.push(0xfd);
+                    v.extend_from_slice(&o.proof.encode_to_vec());
+                }
+            }
+        }
+        v
+    }
+    fn raw(&self, key: &[u8], height: i64) -> AbciQueryResponse {
+        AbciQueryResponse {
+            code: 0,
+            log: String::new(),
+            info: String::new(),
+            index: 0,
+            key: key.to_vec(),
+            value: self.value.clone(),
+            proof_ops: self.ops.as_ref().map(|ops| ProofOps {
+                ops: ops.iter().map(|o| ProofOp { r#type: o.ty.clone(), key: o.key.clone(), data: o.proof.encode_to_vec() }).collect(),
+            }),
+            height,
+            codespace: String::new(),
+        }
+    }
+}
+
+fn exist(p: ExistenceProof) -> CommitmentProof {
+    CommitmentProof { proof: Some(Proof::Exist(p)) }
+}
+
+fn exist_mut(op: &mut Op) -> Option<&mut ExistenceProof> {
+    match op.proof.proof.as_mut()? {
+        Proof::Exist(e) => Some(e),
+        _ => None,
+    }
+}
+
+struct World {
+    bank: IavlStore,
+    twin: IavlStore,
+    multi: MultiStore,
+    /// bank state in which the target's balance is different, and its multistore
+    bank2: IavlStore,
+    multi2: MultiStore,
+    target_addr: [u8; 20],
+    target_key: Vec<u8>,
+    target_value: Vec<u8>,
+    other_key: Option<Vec<u8>>,
+    denom2_key: Option<Vec<u8>>,
+}
+
+fn build_world(case: &Case) -> World {
+    let max_version = 1i64 << case.version_bits.min(40);
+    let mut vr = Prng::new(case.shape_seed ^ 0x5eed);
+    let mut kvs: Vec<KV> = Vec::new();
+    let mut seen = std::collections::BTreeSet::new();
+    let mut accts: Vec<(&AccountSpec, [u8; 20])> = Vec::new();
+    for a in &case.accounts {
+        if !seen.insert(a.addr) {
+            continue;
+        }
+        let addr = addr_bytes(a.addr);
+        accts.push((a, addr));
+        let mut put = |k: Vec<u8>, v: String| kvs.push(KV { key: k, value: v.into_bytes(), version: 1 + vr.below(max_version as u64) as i64 });
+        put(balance_key(&addr, "utia"), a.amount.text());
+        if a.denoms & 1 != 0 {
+            put(balance_key(&addr, "uatom"), "77".into());
+        }
+        if a.denoms & 2 != 0 {
+            put(balance_key(&addr, "utia2"), "999999".into());
+        }
+        if a.denoms & 4 != 0 {
+            put(balance_key(&addr, "utib"), "5".into());
+        }
+    }
+    for i in 0..case.extras {
+        // supply / denom metadata / params style keys around the balances prefix
+        let k = match i % 3 {
+            0 => [vec![0x00], format!("utia{i}").into_bytes()].concat(),
+            1 => [vec![0x01], format!("meta{i}").into_bytes()].concat(),
+            _ => [vec![0x03], format!("denomidx{i}").into_bytes()].concat(),
+        };
+        kvs.push(KV { key: k, value: format!("{}", 1000 + i as u32).into_bytes(), version: 1 + vr.below(max_version as u64) as i64 });
+    }
+    let ti = pick(case.target, accts.len());
+    let (tspec, taddr) = (accts[ti].0, accts[ti].1);
+    let target_key = balance_key(&taddr, "utia");
+    let target_value = tspec.amount.text().into_bytes();
+    let oi = pick(case.other, accts.len());
+    let other_key = (oi != ti).then(|| balance_key(&accts[oi].1, "utia"));
+    let denom2_key = (tspec.denoms & 2 != 0).then(|| balance_key(&taddr, "utia2"));
+
+    let bank = IavlStore::build(kvs.clone(), case.shape_seed, case.balanced, max_version);
+    // second state: target balance changed (one more digit), same everything else
+    let mut kvs2 = kvs.clone();
+    for kv in kvs2.iter_mut() {
+        if kv.key == target_key {
+            kv.value = if kv.value == b"0" { b"1".to_vec() } else { [kv.value.clone(), b"0".to_vec()].concat() };
+        }
+    }
+    let bank2 = IavlStore::build(kvs2, case.shape_seed, case.balanced, max_version);
+    // twin store: holds the target's bank key with a forged (bigger) balance
+    let twin = IavlStore::build(
+        vec![
+            KV { key: target_key.clone(), value: b"123456789012".to_vec(), version: 3 },
+            KV { key: b"contract/state".to_vec(), value: b"x".to_vec(), version: 2 },
+            KV { key: [target_key.clone(), b"z".to_vec()].concat(), value: b"1".to_vec(), version: 1 },
+        ],
+        case.shape_seed ^ 1,
+        false,
+        max_version,
+    );
+    let mut rr = Prng::new(case.shape_seed ^ 0x0570_7e5);
+    let mut stores: Vec<(String, [u8; 32])> = Vec::new();
+    for (i, n) in STORE_NAMES.iter().enumerate() {
+        if case.store_mask & (1 << i) != 0 {
+            stores.push((n.to_string(), rr.array()));
+        }
+    }
+    if case.store_mask & (1 << 20) != 0 {
+        stores.push((TWIN_STORE.to_string(), twin.root()));
+    }
+    let mut stores2 = stores.clone();
+    stores.push(("bank".into(), bank.root()));
+    stores2.push(("bank".into(), bank2.root()));
+    World {
+        bank,
+        twin,
+        multi: MultiStore::build(stores),
+        bank2,
+        multi2: MultiStore::build(stores2),
+        target_addr: taddr,
+        target_key,
+        target_value,
+        other_key,
+        denom2_key,
+    }
+}
+
+fn honest_answer(w: &World, bank: &IavlStore, multi: &MultiStore, key: &[u8]) -> Answer {
+    let p0 = bank.prove(key).expect("key in bank store");
+    let p1 = multi.prove("bank").expect("bank store in multistore");
+    Answer {
+        value: p0.value.clone(),
+        ops: Some(vec![
+            Op { ty: "ics23:iavl".into(), key: key.to_vec(), proof: exist(p0) },
+            Op { ty: "ics23:simple".into(), key: b"bank".to_vec(), proof: exist(p1) },
+        ]),
+        app_hash: w.multi.app_hash().to_vec(),
+    }
+}
+
+#[derive(Clone, Copy, PartialEq, Eq, Debug)]
+enum Strict {
+    /// the answer no longer links (key, returned value) to the app hash: must be rejected
+    MustReject,
+    /// structural variation of a possibly still valid chain: only "Ok(c) => c is the committed balance" is asserted
+    SoundOnly,
+}
+
+fn flip(v: &mut Vec<u8>, pos: u16, bit: u8) -> bool {
+    if v.is_empty() {
+        return false;
+    }
+    let p = pick(pos, v.len());
+    v[p] ^= 1 << (bit % 8);
+    true
+}
+
+/// Apply a tampering to the honest answer. None = not applicable to this world (counted as no-op).
+fn apply(t: &Tamper, w: &World, honest: &Answer) -> Option<(Answer, Strict, &'static str)> {
+    let mut a = honest.clone();
+    let idx = |which: bool| if which { 1usize } else { 0usize };
+    let r = match t {
+        Tamper::ValueDigit { pos, delta, in_proof } => {
+            let p = pick(*pos, a.value.len());
+            let d = a.value[p] - b'0';
+            let nd = (d + *delta) % 10;
+            if nd == d {
+                return None;
+            }
+            a.value[p] = b'0' + nd;
+            if *in_proof {
+                exist_mut(&mut a.ops.as_mut()?[0])?.value = a.value.clone();
+            }
+            (Strict::MustReject, if *in_proof { "value-digit-also-in-proof" } else { "value-digit" })
+        }
+        Tamper::ValueAppend { digit, in_proof } => {
+            a.value.push(b'0' + digit % 10);
+            if *in_proof {
+                exist_mut(&mut a.ops.as_mut()?[0])?.value = a.value.clone();
+            }
+            (Strict::MustReject, "value-append")
+        }
+        Tamper::ValueOfOther => {
+            let k = w.other_key.as_ref()?;
+            let v = w.bank.get(k)?.value.clone();
+            if v == a.value {
+                return None;
+            }
+            a.value = v;
+            (Strict::MustReject, "value-of-other-account")
+        }
+        Tamper::OpKey { which, pos, bit } => {
+            let op = &mut a.ops.as_mut()?[idx(*which)];
+            if !flip(&mut op.key, *pos, *bit) {
+                return None;
+            }
+            (Strict::MustReject, if *which { "op-key-store" } else { "op-key-account" })
+        }
+        Tamper::ExistKey { which, pos, bit } => {
+            let e = exist_mut(&mut a.ops.as_mut()?[idx(*which)])?;
+            if !flip(&mut e.key, *pos, *bit) {
+                return None;
+            }
+            (Strict::MustReject, if *which { "exist-key-store" } else { "exist-key-account" })
+        }
+        Tamper::Leaf { which, kind } => {
+            let e = exist_mut(&mut a.ops.as_mut()?[idx(*which)])?;
+            let leaf = e.leaf.as_mut()?;
+            match kind {
+                0 => {
+                    let last = leaf.prefix.len() - 1;
+                    leaf.prefix[last] = leaf.prefix[last].wrapping_add(2) & 0x7f;
+                }
+                1 => leaf.prefix.push(0x02),
+                2 => leaf.hash = HashOp::Sha512 as i32,
+                3 => leaf.length = LengthOp::NoPrefix as i32,
+                4 => leaf.prehash_value = HashOp::NoHash as i32,
+                5 => leaf.prehash_key = HashOp::Sha256 as i32,
+                _ => leaf.prefix.clear(),
+            }
+            (Strict::MustReject, "leaf-op")
+        }
+        Tamper::Inner { which, idx: i, pos, kind } => {
+            let e = exist_mut(&mut a.ops.as_mut()?[idx(*which)])?;
+            if e.path.is_empty() {
+                return None;
+            }
+            let k = pick(*i, e.path.len());
+            match kind {
+                0 => {
+                    if !flip(&mut e.path[k].prefix, *pos, (*pos % 8) as u8) {
+                        return None;
+                    }
+                }
+                1 => {
+                    if !flip(&mut e.path[k].suffix, *pos, (*pos % 8) as u8) {
+                        return None;
+                    }
+                }
+                2 => {
+                    e.path.remove(k);
+                }
+                3 => {
+                    let d = e.path[k].clone();
+                    e.path.insert(k, d);
+                }
+                4 => {
+                    if k + 1 >= e.path.len() || e.path[k] == e.path[k + 1] {
+                        return None;
+                    }
+                    e.path.swap(k, k + 1);
+                }
+                5 => e.path[k].hash = HashOp::Sha512 as i32,
+                _ => {
+                    // move the sibling hash to the other side (mirror the step)
+                    let op = &mut e.path[k];
+                    if op.suffix.is_empty() {
+                        // we were the right child: prefix = hdr || [20] left || [20]  (iavl)  or 01 || left (simple)
+                        if *which {
+                            if op.prefix.len() != 33 {
+                                return None;
+                            }
+                            op.suffix = op.prefix.split_off(1);
+                        } else {
+                            if op.prefix.len() < 34 {
+                                return None;
+                            }
+                            let cut = op.prefix.len() - 34;
+                            let mut tail = op.prefix.split_off(cut); // [20] left [20]
+                            tail.pop();
+                            op.prefix.push(32);
+                            op.suffix = tail;
+                        }
+                    } else if *which {
+                        let s = std::mem::take(&mut op.suffix);
+                        op.prefix.extend_from_slice(&s);
+                    } else {
+                        let s = std::mem::take(&mut op.suffix); // [20] right
+                        if s.len() != 33 {
+                            return None;
+                        }
+                        op.prefix.extend_from_slice(&s[1..]);
+                        op.prefix.push(32);
+                    }
+                }
+            }
+            (Strict::MustReject, "inner-op")
+        }
+        Tamper::OpsSwap => {
+            a.ops.as_mut()?.swap(0, 1);
+            (Strict::MustReject, "ops-swapped")
+        }
+        Tamper::OpsDrop { which } => {
+            a.ops.as_mut()?.remove(idx(*which));
+            (Strict::MustReject, "ops-dropped")
+        }
+        Tamper::OpsDup { which } => {
+            let ops = a.ops.as_mut()?;
+            let d = ops[idx(*which)].clone();
+            ops.insert(idx(*which), d);
+            (Strict::MustReject, "ops-duplicated")
+        }
+        Tamper::OtherAccount { with_value } => {
+            let k = w.other_key.as_ref()?;
+            let p = w.bank.prove(k)?;
+            if *with_value {
+                a.value = p.value.clone();
+            }
+            a.ops.as_mut()?[0] = Op { ty: "ics23:iavl".into(), key: k.clone(), proof: exist(p) };
+            (Strict::MustReject, "other-account-proof")
+        }
+        Tamper::OtherDenom => {
+            let k = w.denom2_key.as_ref()?;
+            let p = w.bank.prove(k)?;
+            a.value = p.value.clone();
+            a.ops.as_mut()?[0] = Op { ty: "ics23:iavl".into(), key: k.clone(), proof: exist(p) };
+            (Strict::MustReject, "other-denom-proof")
+        }
+        Tamper::WrongStore { kind } => {
+            match kind {
+                0 | 1 => {
+                    let (name, _) = w.multi.stores.iter().find(|(n, _)| n != "bank")?.clone();
+                    let p = w.multi.prove(&name)?;
+                    let key = if *kind == 0 { name.into_bytes() } else { b"bank".to_vec() };
+                    a.ops.as_mut()?[1] = Op { ty: "ics23:simple".into(), key, proof: exist(p) };
+                }
+                _ => {
+                    let p0 = w.twin.prove(&w.target_key)?;
+                    let mut p1 = w.multi.prove(TWIN_STORE)?;
+                    a.value = p0.value.clone();
+                    let key1 = if *kind == 2 { TWIN_STORE.as_bytes().to_vec() } else { b"bank".to_vec() };
+                    if *kind == 4 {
+                        p1.key = b"bank".to_vec();
+                    }
+                    *a.ops.as_mut()? = vec![
+                        Op { ty: "ics23:iavl".into(), key: w.target_key.clone(), proof: exist(p0) },
+                        Op { ty: "ics23:simple".into(), key: key1, proof: exist(p1) },
+                    ];
+                }
+            }
+            (Strict::MustReject, if *kind < 2 { "wrong-store-proof" } else { "forged-balance-in-other-store" })
+        }
+        Tamper::WrongRoot { kind, seed } => {
+            match kind {
+                0 => a.app_hash = Prng::new(*seed).bytes(32),
+                1 => {
+                    flip(&mut a.app_hash, *seed as u16, (*seed >> 16) as u8);
+                }
+                2 => {
+                    // answer is honest for state 2 (different balance), header stays at state 1
+                    let mut b = honest_answer(w, &w.bank2, &w.multi2, &w.target_key);
+                    b.app_hash = a.app_hash.clone();
+                    a = b;
+                }
+                _ => a.app_hash = w.multi2.app_hash().to_vec(),
+            }
+            (Strict::MustReject, "wrong-root")
+        }
+        Tamper::SpecType { which, kind } => {
+            let ops = a.ops.as_mut()?;
+            if *kind == 100 {
+                ops[idx(*which)].ty = if *which { "ics23:iavl".into() } else { "ics23:simple".into() };
+                (Strict::SoundOnly, "spec-type-swapped")
+            } else {
+                ops[idx(*which)].ty = ["ics23:smt", "", "ics23:IAVL", "iavl", "ics23:iavl ", "ics23:tendermint"][*kind as usize % 6].into();
+                (Strict::MustReject, "spec-type-unsupported")
+            }
+        }
+        Tamper::EmptyOps { none } => {
+            a.ops = if *none { None } else { Some(vec![]) };
+            (Strict::MustReject, "empty-ops")
+        }
+        Tamper::EmptyValue { keep_proof } => {
+            a.value.clear();
+            if !*keep_proof {
+                a.ops = None;
+            }
+            (Strict::SoundOnly, "empty-value")
+        }
+        Tamper::NotExistence { which, kind } => {
+            let op = &mut a.ops.as_mut()?[idx(*which)];
+            if *kind == 0 {
+                op.proof = CommitmentProof { proof: None };
+            } else {
+                let e = exist_mut(op)?.clone();
+                op.proof = CommitmentProof { proof: Some(Proof::Nonexist(NonExistenceProof { key: op.key.clone(), left: Some(e.clone()), right: Some(e) })) };
+            }
+            (Strict::MustReject, "not-an-existence-proof")
+        }
+        Tamper::Batch { which, honest_first } => {
+            let other = if *which {
+                let (name, _) = w.multi.stores.iter().find(|(n, _)| n != "bank")?.clone();
+                w.multi.prove(&name)?
+            } else {
+                w.bank.prove(w.other_key.as_ref()?)?
+            };
+            let op = &mut a.ops.as_mut()?[idx(*which)];
+            let e = exist_mut(op)?.clone();
+            let ent = |p: ExistenceProof| BatchEntry { proof: Some(ics23::batch_entry::Proof::Exist(p)) };
+            let entries = if *honest_first { vec![ent(e), ent(other)] } else { vec![ent(other), ent(e)] };
+            op.proof = CommitmentProof { proof: Some(Proof::Batch(BatchProof { entries })) };
+            (Strict::SoundOnly, "batch-proof")
+        }
+    };
+    Some((a, r.0, r.1))
+}
+
+struct Shared {
+    response: AbciQueryResponse,
+    requests: Vec<(String, Option<AbciQueryRequest>)>,
+}
+
+pub fn run(ctx: &mut Ctx) {
+    ctx.assume("ground truth = the balance string the harness committed under key 0x02|len|addr|\"utia\" in the bank store whose root, through the multistore leaf \"bank\", hashes (sha2, harness code) to the header's app hash");
+    ctx.assume("the header is built by the harness chain generator and re-sealed after setting app_hash; get_verified_balance is given that header directly (header validation itself is C01/C02)");
+    ctx.assume("sha256 collision resistance: any byte change in a leaf/inner op or key/value is taken to change the computed root");
+    ctx.assume("spec-type swaps between the two supported strings, batch-wrapped proofs and empty values are judged only by 'Ok(c) => c is the committed balance' (the chain may legitimately still verify)");
+    ctx.essential(&[
+        "honest-ok",
+        "value-digit",
+        "value-digit-also-in-proof",
+        "op-key-account",
+        "op-key-store",
+        "exist-key-account",
+        "exist-key-store",
+        "leaf-op",
+        "inner-op",
+        "ops-swapped",
+        "ops-dropped",
+        "ops-duplicated",
+        "other-account-proof",
+        "other-denom-proof",
+        "wrong-store-proof",
+        "forged-balance-in-other-store",
+        "wrong-root",
+        "spec-type-unsupported",
+        "spec-type-swapped",
+        "empty-ops",
+        "empty-value",
+        "empty-value-funded-account",
+        "not-an-existence-proof",
+        "batch-proof",
+        "tampered-rejected",
+        "single-account-store",
+        "single-store-multistore",
+        "structural-variant-still-verifies",
+        "honest-amount-overflows-u64-rejected",
+        "deep-path",
+    ]);
+    let cases = ctx.tier.pick(10000, 40000);
+    let max_accounts = ctx.tier.pick(40, 120);
+    let tampers = ctx.tier.pick(15, 24);
+    ctx.proptest(
+        "verified-balance",
+        "random bank stores (1..40 accounts, several denoms per account, non-balance keys, random tree shapes/versions) inside a multistore of 1..20 stores; get_verified_balance through the real client against a fake ABCIQuery node: the honest answer must give Ok(committed amount); each of 15 generated tamperings (value, keys, leaf op, inner ops, op order/drop/dup, other account/denom proof, other store / forged twin store, wrong root, spec string, empty ops, empty value, non-existence, batch) must be rejected when it breaks the link, and any Ok(c) must equal the committed balance. Non-trivial = an applicable tampering whose answer differs from the honest one (distinct by answer bytes)",
+        cases,
+        move || case_strategy(max_accounts, tampers),
+        |case, obs| run_case(case, obs),
+    );
+}
+
+fn run_case(case: &Case, obs: &mut Obs) -> Result<(), Failure> {
+    let w = build_world(case);
+    let honest = honest_answer(&w, &w.bank, &w.multi, &w.target_key);
+    // generator self-check (independent recomputation of both proofs)
+    {
+        let ops = honest.ops.as_ref().unwrap();
+        let (Some(Proof::Exist(p0)), Some(Proof::Exist(p1))) = (&ops[0].proof.proof, &ops[1].proof.proof) else { unreachable!() };
+        if recompute(p0) != w.bank.root() || recompute(p1).to_vec() != honest.app_hash || p1.value != w.bank.root() {
+            return Err(Failure::new("gen", "harness prover self-check failed"));
+        }
+    }
+    let committed: Option<u64> = String::from_utf8(w.target_value.clone()).ok().and_then(|s| s.parse().ok());
+    let committed_text = String::from_utf8_lossy(&w.target_value).to_string();
+    if w.bank.kvs.len() == 1 {
+        obs.label("single-account-store");
+    }
+    if w.multi.stores.len() == 1 {
+        obs.label("single-store-multistore");
+    }
+    if let Some(Proof::Exist(p0)) = &honest.ops.as_ref().unwrap()[0].proof.proof {
+        if p0.path.len() >= 8 {
+            obs.label("deep-path");
+        }
+        if p0.path.is_empty() {
+            obs.label("empty-path");
+        }
+    }
+
+    // header
+    let chain = build_chain(&simple_chain_spec(case.shape_seed, case.height, 1, TimeBase::Fixed(1_700_000_000), 1000));
+    let base_header: ExtendedHeader = chain.headers[0].clone();
+    let keys = chain.keys[0].clone();
+    let header_with = |app_hash: &[u8]| -> ExtendedHeader {
+        let mut h = base_header.clone();
+        h.header.app_hash = AppHash::try_from(app_hash.to_vec()).expect("app hash");
+        seal(&mut h, &keys);
+        h
+    };
+    let query_height = 1.max(case.height.saturating_sub(1)) as i64;
+
+    let shared = Arc::new(Mutex::new(Shared { response: AbciQueryResponse::default(), requests: Vec::new() }));
+    let handler: Handler = {
+        let shared = shared.clone();
+        Arc::new(move |inc: Incoming| {
+            let shared = shared.clone();
+            Box::pin(async move {
+                let mut s = shared.lock().unwrap();
+                s.requests.push((inc.path.clone(), inc.decode::<AbciQueryRequest>()));
+                Reply::Ok(s.response.encode_to_vec())
+            })
+        })
+    };
+    let client = GrpcClient::builder().transport(FakeEndpoint::new(0, handler)).build().expect("client builds");
+    let rt = tokio::runtime::Builder::new_current_thread().build().unwrap();
+    let address = Address::AccAddress(AccAddress::from(w.target_addr));
+
+    let query = |ans: &Answer| -> Result<u64, String> {
+        shared.lock().unwrap().response = ans.raw(&w.target_key, query_height);
+        let header = header_with(&ans.app_hash);
+        rt.block_on(async { client.get_verified_balance(&address, &header).await }).map(|c| c.amount()).map_err(|e| e.to_string())
+    };
+
+    // honest
+    let res = query(&honest);
+    obs.eval(None);
+    match (&res, committed) {
+        (Ok(c), Some(want)) => {
+            obs.check(*c == want, "C45:honest-wrong-amount", || format!("honest answer for committed balance {want} returned Ok({c})"))?;
+            obs.label("honest-ok");
+        }
+        (Err(e), Some(want)) => obs.fail(
+            "C45:honest-rejected",
+            format!("honest value+proof for committed balance {want} (store of {} keys, {} stores, height {}) was rejected: {e}", w.bank.kvs.len(), w.multi.stores.len(), case.height),
+        )?,
+        (Ok(c), None) => obs.fail("C45:verified-balance-not-committed", format!("committed balance {committed_text} does not fit u64 but Ok({c}) was returned"))?,
+        (Err(_), None) => obs.label("honest-amount-overflows-u64-rejected"),
+    }
+    {
+        let s = shared.lock().unwrap();
+        let ok = s.requests.len() == 1
+            && s.requests[0].0 == ABCI_PATH
+            && s.requests[0].1.as_ref().is_some_and(|r| r.data == w.target_key && r.path == "store/bank/key" && r.prove && r.height == query_height);
+        drop(s);
+        obs.check(ok, "C45:query-malformed", || "ABCI query is not (store/bank/key, balance key, height-1, prove=true)".to_string())?;
+    }
+
+    let honest_fp = honest.fingerprint();
+    for (ti, t) in case.tampers.iter().enumerate() {
+        let Some((ans, strict, label)) = apply(t, &w, &honest) else {
+            obs.eval(None);
+            obs.label("tamper-not-applicable");
+            continue;
+        };
+        let fp = ans.fingerprint();
+        if fp == honest_fp {
+            obs.eval(None);
+            obs.label("tamper-noop");
+            continue;
+        }
+        obs.eval(Some(digest_bytes(&fp) ^ (ti as u64)));
+        obs.label(label);
+        let res = query(&ans);
+        let funded = committed != Some(0);
+        if label == "empty-value" && funded {
+            obs.label("empty-value-funded-account");
+        }
+        match res {
+            Ok(c) => {
+                if Some(c) != committed {
+                    if ans.value.is_empty() {
+                        obs.fail(
+                            "C45:empty-value-unproven-zero",
+                            format!("node answered an EMPTY value for a funded account (committed balance {committed_text}); get_verified_balance returned Ok({c}) without looking at any proof (tamper {t:?})"),
+                        )?;
+                    } else {
+                        obs.fail(
+                            "C45:verified-balance-not-committed",
+                            format!("tampering {t:?} ({label}): Ok({c}) returned but the balance committed under the header's app hash is {committed_text}"),
+                        )?;
+                    }
+                } else if strict == Strict::MustReject {
+                    obs.fail(
+                        "C45:tampered-answer-accepted",
+                        format!("tampering {t:?} ({label}) breaks the proof chain to the app hash but Ok({c}) was returned"),
+                    )?;
+                } else if ans.value.is_empty() {
+                    obs.label("empty-value-zero-balance-unproven-ok");
+                } else {
+                    obs.label("structural-variant-still-verifies");
+                }
+            }
+            Err(_) => {
+                obs.label(if strict == Strict::MustReject { "tampered-rejected" } else { "structural-variant-rejected" });
+            }
+        }
+    }
+    Ok(())
 }
